@@ -41,7 +41,7 @@ def raceSchedule : List Act :=
 /-- DEFECT (fixed, findings/C16.json `two-attempts-in-flight`): with `checkServer` and `setInFlightConnection` in
     separate critical sections two concurrent requests both pass the check — two attempts in flight. -/
 theorem one_in_flight_fails_check_set_race :
-    (run ⟨false, [], false, false, false⟩ {} raceSchedule).map inFlightCount = some 2 := by decide
+    (run ⟨false, [], false, false, false, true⟩ {} raceSchedule).map inFlightCount = some 2 := by decide
 
 /-- the same schedule on the repaired code: the second request is answered InProgress -/
 theorem race_schedule_repaired :
@@ -57,7 +57,7 @@ def foreignResetSchedule : List Act :=
     unsuccessful result — request B, merely answered InProgress, frees the slot of the stalled request A, and
     request C starts a second attempt. -/
 theorem one_in_flight_fails_foreign_reset :
-    (run ⟨false, [], true, true, false⟩ { scripts := fun _ => [(.accept, true)] } foreignResetSchedule).map
+    (run ⟨false, [], true, true, false, true⟩ { scripts := fun _ => [(.accept, true)] } foreignResetSchedule).map
       (fun s => (inFlightCount s, (s.tasks 1).res)) = some (2, some .inprogress) := by decide
 
 theorem foreign_reset_schedule_repaired :
@@ -99,7 +99,7 @@ theorem after_success_partial (cfg : Cfg) (hr : Repaired cfg) (s : St) (h : Reac
   have hI := reach2_inv2 hr h
   obtain ⟨c, hc1, hc2⟩ := hI.rs i hi hres
   have hlt := hI.i1.tc i hi c hc1
-  refine ⟨c, hc1, hlt, hI.td i hi c hc1, (hI.i1.jp c hlt).2.2.2.2.2.2.2.2 hc2, ?_⟩
+  refine ⟨c, hc1, hlt, hI.td i hi c hc1, (hI.i1.jp c hlt).2.2.2.2.2.2.2.2.1 hc2, ?_⟩
   intro hp
   refine ⟨?_, fun c' hc' hp' => hI.c2.b1 c' c hc' hlt hp' hp, ?_⟩
   · rcases hI.c2.b4 c hlt hp with h1 | h1 | h1
@@ -138,7 +138,7 @@ theorem stale_request_repaired :
     the request's SNAPSHOT is non-nil, the same stale request reports Success while server 1's connection stays in
     play: two live backends, the player in both lists. -/
 theorem after_success_fails_stale_snapshot :
-    (run ⟨false, [1, 2], true, false, true⟩ {} (staleSchedule 5)).map
+    (run ⟨false, [1, 2], true, false, true, true⟩ {} (staleSchedule 5)).map
       (fun s => ((s.tasks 0).res, s.current, s.players, (s.conns 0).phase, playCount s)) =
       some (some .ok, some 1, [2, 1], .play, 2) := by rfl
 
@@ -184,6 +184,8 @@ def switchAct (s : St) : Act → Bool
   | .spawn _ _ _ => false
   | .create _ _ => false
   | .release _ => false
+  | .deadline _ => false
+  | .watch _ => false
   | .kick _ => true
   | .drop _ => true
   | .quit => true
@@ -242,6 +244,17 @@ theorem failed_safe (cfg : Cfg) (s s' : St) (a : Act) (hJP : JP s) (h : step cfg
   | spawn m d ev => simp [step] at h; subst h; exact ⟨rfl, rfl, rfl⟩
   | create d tag => simp [step] at h; subst h; exact ⟨rfl, rfl, rfl⟩
   | release c0 => simp only [step] at h; split at h <;> simp at h; subst h; exact ⟨rfl, rfl, rfl⟩
+  | deadline c0 => simp only [step] at h; split at h <;> simp at h; subst h; exact ⟨rfl, rfl, rfl⟩
+  | watch c0 =>
+    simp only [step] at h
+    repeat' (split at h)
+    all_goals (try (simp at h; done))
+    all_goals (injection h with h; subst h)
+    · rename_i hph
+      have hnp : (s.conns c0).phase ≠ .play := by
+        simp at hph; rcases hph with h | h <;> simp [h]
+      exact ⟨by simp, closeConn_players_not_play s c0 hnp, by simp⟩
+    · exact ⟨rfl, rfl, rfl⟩
   | kick c0 => simp [switchAct] at hns
   | drop c0 => simp [switchAct] at hns
   | quit => simp [switchAct] at hns
@@ -268,6 +281,65 @@ theorem failed_fallback_redirects (cfg : Cfg) (s s' : St) (i rs : Nat) (hi : i <
   rw [if_neg (by omega)] at h
   simp only [hpc] at h
   split at h <;> (injection h with h; subst h) <;> simp_all [setPc_tasks, upd_apply]
+
+/-- A request that has returned WITHOUT success — refused, kicked, EOF, online-mode backend, or timed out / cancelled
+    at any point (`Act.deadline` may fire at any time; the handler's watcher then fails the request) — has no live
+    connection left: its connection is closed, stays closed (`step_closed_stable`), and whatever that connection's
+    read loop still does (a late JoinGame in particular) changes neither the current server nor the lists.
+    Same hypothesis G2 as above (it also says that a deadline watcher does not run while its connection's read loop is
+    inside a switch-over section — the two race in the real code). -/
+theorem failed_request_no_live_connection_partial (cfg : Cfg) (hr : Repaired cfg) (s : St) (h : Reach cfg G2 s)
+    (i : Nat) (hi : i < s.ntasks) (hd : (s.tasks i).pc = .done) (c : Nat) (r : Res)
+    (hc : (s.tasks i).conn = some c) (hres : (s.tasks i).res = some r) (hne : r ≠ .ok) :
+    (s.conns c).phase = .closed ∧
+    (∀ a s', step cfg s a = some s' → (s'.conns c).phase = .closed) ∧
+    (∀ s', step cfg s (.back c) = some s' → s'.current = s.current ∧ s'.players = s.players) := by
+  have hI := reach2_inv2 hr h
+  have hlt := hI.i1.tc i hi c hc
+  have hcl := hI.fd i hi hd c r hc hres hne
+  refine ⟨hcl, fun a s' hs => step_closed_stable hs c hlt hcl, ?_⟩
+  intro s' hs
+  have hns : switchAct s (.back c) = false := by
+    have hjt := hI.c2.jt c hlt
+    simp only [switchAct, Bool.or_eq_false_iff]
+    constructor
+    · cases hh : (s.conns c).h <;> simp_all [swA]
+    · simp [hcl]
+  have := failed_safe cfg s s' (.back c) hI.i1.jp hs hns
+  exact ⟨this.1, this.2.1⟩
+
+/-- a closed connection with an idle read loop does not move at all -/
+theorem late_join_ignored (cfg : Cfg) (s : St) (c : Nat) (hp : (s.conns c).phase = .closed)
+    (hh : (s.conns c).h = .idle) : step cfg s (.back c) = none :=
+  closed_conn_inert cfg s c hp hh
+
+/-- join server 1, then a request to server 2 whose backend logs in promptly and keeps silent before JoinGame; the
+    request's deadline expires, the watcher runs, the request returns; then the backend is released -/
+def timeoutSchedule (tail : List Act) : List Act :=
+  [.spawn .plain 1 .allow, .task 0, .task 0, .task 0, .task 0, .task 0,
+   .back 0, .back 0, .back 0, .back 0, .back 0, .task 0, .task 0, .task 0, .task 0,      -- on server 1
+   .spawn .plain 2 .allow, .task 1, .task 1, .task 1, .task 1, .task 1,                   -- request to 2 … dial
+   .back 1,                                                                               -- login success, then silence
+   .deadline 1, .watch 1,                                                                 -- the deadline expires
+   .task 1, .task 1, .task 1, .task 1,                                                    -- the request returns
+   .release 1] ++ tail                                                                    -- the backend sends JoinGame
+
+/-- repaired code: the timed-out request returns an error, its connection is closed, the late JoinGame finds no read
+    loop (`step … (.back 1) = none`), the player stays on server 1 -/
+theorem timeout_repaired :
+    (run2 (repaired false [1, 2]) { scripts := fun n => if n = 2 then [(.lateJoin, false)] else [] } (timeoutSchedule [])).map
+      (fun s => ((s.tasks 1).res, (s.tasks 1).pc, (s.conns 1).phase, s.current, s.players, playCount s,
+        (step (repaired false [1, 2]) s (.back 1)).isNone)) =
+      some (some .err, .done, .closed, some 0, [1], 1, true) := by rfl
+
+/-- SEEDED DEFECT (variant `watcherCloses = false`): the transition handler's deadline watcher only fails the request.
+    The request returns an error and frees the in-flight slot while its connection stays open; the late JoinGame then
+    closes the player's real current backend and moves the player to the server whose request was reported failed. -/
+theorem failed_request_fails_watcher_leaves_connection :
+    (run ⟨false, [1, 2], true, false, false, false⟩ { scripts := fun n => if n = 2 then [(.lateJoin, false)] else [] }
+        (timeoutSchedule [.back 1, .back 1, .back 1, .back 1, .back 1])).map
+      (fun s => ((s.tasks 1).res, (s.tasks 1).pc, (s.conns 1).phase, s.current, s.players, (s.conns 0).phase)) =
+      some (some .err, .done, .play, some 1, [2], .closed) := by rfl
 
 /-! ## 4. requests to the current server / while one is in flight are reported without side effects -/
 
@@ -299,7 +371,7 @@ theorem noop_results (cfg : Cfg) (hr : Repaired cfg) (s s' : St) (i : Nat) (hi :
     ((s.tasks i).pc = .post → sharedEq s s' ∧ (s'.tasks i).pc = .cancel ∧ (s'.tasks i).res = (s.tasks i).res) ∧
     ((s.tasks i).pc = .cancel → (s.tasks i).conn = none → (s.tasks i).mode = .plain →
         sharedEq s s' ∧ (s'.tasks i).pc = .done ∧ (s'.tasks i).res = (s.tasks i).res) := by
-  obtain ⟨hat, hfr, _⟩ := hr
+  obtain ⟨hat, hfr, _, _⟩ := hr
   simp only [step] at h
   unfold stepTask at h
   rw [if_neg (by omega)] at h
@@ -322,7 +394,7 @@ theorem noop_results (cfg : Cfg) (hr : Repaired cfg) (s s' : St) (i : Nat) (hi :
 /-- DEFECT (fixed): in the original code the post-processing of such a no-op request cleared the in-flight slot
     that belongs to ANOTHER request. -/
 theorem noop_results_fails_foreign_reset :
-    (run ⟨false, [], true, true, false⟩ { scripts := fun _ => [(.accept, true)] } (foreignResetSchedule.take 9)).map
+    (run ⟨false, [], true, true, false, true⟩ { scripts := fun _ => [(.accept, true)] } (foreignResetSchedule.take 9)).map
       (fun s => (s.inFlight, (s.tasks 1).res, (s.tasks 0).pc)) = some (none, some .inprogress, .wait) := by decide
 
 /-! ## 5. tie to the source (regenerated facts) -/
@@ -376,6 +448,14 @@ theorem src_joingame_lookup_unconditional :
     handleJoinGameCalls.filter (fun c => c = "b.serverConn.player.mu.Lock" ∨ c = "b.serverConn.player.mu.Unlock") =
       ["b.serverConn.player.mu.Lock", "b.serverConn.player.mu.Unlock", "b.serverConn.player.mu.Unlock"] := by decide
 
+open Gate.Gen.C16 in
+/-- the deadline watchers of the login and of the transition handler fail the request AND close the connection -/
+theorem src_deadline_watchers_disconnect :
+    transitionActivatedCalls.filter (fun c => c = "b.requestCtx.result" ∨ c = "b.serverConn.disconnect") =
+      ["b.requestCtx.result", "b.serverConn.disconnect"] ∧
+    loginActivatedCalls.filter (fun c => c = "b.requestCtx.result" ∨ c = "b.serverConn.disconnect") =
+      ["b.requestCtx.result", "b.serverConn.disconnect"] := by decide
+
 /-! ## non-vacuity -/
 
 def switchSchedule : List Act :=
@@ -402,6 +482,6 @@ example : ∃ s, Reach (repaired false [1, 2, 3]) G2 s ∧ (s.tasks 1).res = som
       decide
     rw [hrun] at this; simpa using this
 
-example : Repaired (repaired true [1]) := ⟨rfl, rfl, rfl⟩
+example : Repaired (repaired true [1]) := ⟨rfl, rfl, rfl, rfl⟩
 
 end Gate.C16.Props
